@@ -55,6 +55,19 @@ theorem gateScreen_is_isDue (i e : Nat) (he : 0 < e) : Gates.gateScreen (i : Int
   have h1 : ((e : Int) > 0) := by omega
   simp only [h1, true_and]
 
+/-- the nonadiabatic stream (written inside the surface-hopping integrator step): due exactly at the multiples of its own cadence of the ABSOLUTE
+    step `i + 1` (the loop index is already absolute in a resumed run), and labelled with that step -/
+theorem gateNa_is_isDue (i e : Nat) : Gates.gateNa (i : Int) (e : Int) = MDOut.isDue e (i + 1) := by
+  have := gateData_is_isDue i e
+  unfold Gates.gateData at this
+  unfold Gates.gateNa
+  exact this
+
+theorem naLabel_is_step (i : Nat) : Gates.naLabel (i : Int) = ((i + 1 : Nat) : Int) := by
+  unfold Gates.naLabel
+  push_cast
+  rfl
+
 example : Gates.gateData 5 3 = true ∧ Gates.gateData 4 3 = false ∧ Gates.gateVec 6 0 = false := by decide
 
 end GatesTie
